@@ -1,6 +1,8 @@
 (* Model for property C07 - concurrent renders in different threads do not interfere.
 
-   Shared state `G` = the process-global tables of django_components, as they are NOW (after fix 9b964de):
+   Shared state `G` = the process-global tables of django_components, as they are NOW (after fixes 9b964de - the provider
+   references its own data while its body renders - and 51f6eaa - registration and the context-cache entry come after the
+   user code of the prep phase; the root render forgets every id of its own tree in a `finally`):
      perfutil/provide.py    provide_cache / provide_references (insertion-ordered dict of sets) / all_reference_ids
      perfutil/component.py  component_context_cache / component_renderer_cache / child_component_attrs   (id-keyed)
      util/cache.py          LRUCache of cache.py: dict key -> node  +  doubly linked list between two sentinels (pointer level)
@@ -12,7 +14,8 @@
    the thread and is glued to the preceding action.  Every instruction below except `Raise` is such a line (its name is the
    label of the anchor statement the scheduler harness/sched.py stops at); executing it may push further instructions
    (calls, loop bodies over a snapshot, branches taken on what was read) in front of the continuation, or raise.
-   Exceptions unwind the continuation to the innermost `ProvEnd` (= the `except` branch of managed_provide_cache).
+   Exceptions unwind the continuation to the innermost `ProvEnd` (= the `except` branch of managed_provide_cache) or
+   `RootEnd` (= the `finally` of the root's _render_impl).
 
    `run : schedule -> config -> config`; a schedule is a list of thread indices; each element lets that thread execute one
    instruction; an element naming a finished thread is a no-op.  Definitions only; proofs are in Conc/Proofs.v. *)
